@@ -104,7 +104,7 @@ fn feed_key_importers(sink: &mut Sink, input: &[u8]) {
 
 /// a verification run over a link directory seeded with hostile files
 fn hostile_dir_case(sink: &mut Sink, r: &mut Rng, pool: &[KeyInfo], forced: Option<&str>) {
-    let mut g = e2e::Gen { r, pool, insp_counter: 0, force_delegate: false, multi_party: false, co_delegate: false, now: e2e::base_now(), reuse_keys: vec![] };
+    let mut g = e2e::Gen { r, pool, insp_counter: 0, force_delegate: false, multi_party: false, co_delegate: false, now: e2e::base_now(), reuse_keys: vec![], inner_insp_always: false };
     let mut s = g.valid(1, false);
     // half of the time the scenario itself is faulty in one of the catalogued ways (threshold 0 with no
     // evidence, missing / unauthorized links, expired or tampered sub-layouts, ...): unusual but
@@ -171,10 +171,17 @@ fn hostile_dir_case(sink: &mut Sink, r: &mut Rng, pool: &[KeyInfo], forced: Opti
     }
     hooks::set_now(Some(s.now));
     let links_str = links.to_str().unwrap().to_string();
+    // (an injected fault may have given a sub-layout an inspection: inspections record and write the
+    // working directory, which must be the scenario's own scratch directory)
+    let cwd = tmp.path().join("cwd");
+    std::fs::create_dir_all(&cwd).unwrap();
+    let old = std::env::current_dir().unwrap();
+    std::env::set_current_dir(&cwd).unwrap();
     let res = guarded(std::panic::AssertUnwindSafe(|| {
         let block: Metablock = serde_json::from_str(&text).unwrap();
         in_toto::verifylib::in_toto_verify(&block, keys, &links_str, None).is_ok()
     }));
+    std::env::set_current_dir(&old).unwrap();
     hooks::set_now(None);
     sink.stat(&format!("hostile-dir/{}", match res { Err(()) => "PANIC", Ok(true) => "ok", Ok(false) => "err" }));
     sink.oracle(res.is_ok(), "in_toto_verify panicked on a link directory with hostile files", &format!("hostile-dir seed-derived; layout {}", hex(text.as_bytes())));
